@@ -135,7 +135,46 @@ def eval_asym(case):
     return mkres(case, nt=True, classes=['asymmetric-directions', 'role:' + role, 'marker:' + ('own' if mark else 'none'), 'reading:' + '/'.join(R for R in ok if ok[R])], fails=fails)
 
 
+def eval_seq(case):
+    """Several servers in one invocation: the rule is applied to each of them as if it were alone."""
+    import os
+    net = fakenet.FakeNet()
+    ms = case['members']
+    for i, m in enumerate(ms):
+        net.add('s%d' % i, 22, fakenet.Server({'banner': 'SSH-2.0-OpenSSH_9.3', 'kex': m['kex'], 'key': ['ssh-ed25519'], 'enc': m['enc'], 'mac': m['mac']}))
+    tf = drive.tmpfile(''.join('s%d\n' % i for i in range(len(ms))))
+    try:
+        r = drive.run_cli(['-n', '-j', '--skip-rate-test', '--threads', str(case.get('threads', 1)), '-T', tf], net)
+    finally:
+        os.unlink(tf)
+    fails = []
+    if r.exc or r.hang or r.code not in (0, 2, 3):
+        return mkres(case, nt=True, classes=['seq', 'crashed'], fails=[[drive.crash_sig(r) if r.exc else 'no-report', r.brief()]])
+    docs = {d['target'].split(':')[0]: d for d in json.loads(r.out) if isinstance(d, dict) and 'target' in d}
+    for i, m in enumerate(ms):
+        doc = docs.get('s%d' % i)
+        if doc is None:
+            fails.append(['no-report', 'server %d' % (i + 1)])
+            continue
+        has_marker, vs, exposed = reference(dict(m, role='server'))
+        finds = report.JsonReport(doc).findings()
+        warned = {(cat, name) for cat, name, sev, text in finds if TW in text and 'pseudo-algorithm' not in text}
+        db_enc, db_mac = set(gens.db_names('enc')), set(gens.db_names('mac'))
+        want = {('mac' if refmodel.is_etm(x) else 'enc', x) for x in vs if x in db_enc or x in db_mac} if exposed else set()
+        tag = 'server %d of %d (%s)' % (i + 1, len(ms), ', '.join('exposed' if reference(dict(x, role='server'))[2] else ('marker' if reference(dict(x, role='server'))[0] else 'clean') for x in ms))
+        if warned - want:
+            fails.append(['terrapin-warning-on-unaffected-algorithm-in-multi-target-run', '%s: %r warned, rule says %r' % (tag, sorted(warned - want), sorted(want))])
+        if want - warned:
+            fails.append(['terrapin-warning-missing-in-multi-target-run', '%s: %r not warned' % (tag, sorted(want - warned))])
+        notes = [n for n in doc.get('additional_notes', []) if 'strict key exchange' in n]
+        if bool(notes) != bool(has_marker and vs):
+            fails.append(['advisory-note-in-multi-target-run', '%s: %d advisory notes, marker %s, affected %r' % (tag, len(notes), has_marker, vs)])
+    return mkres(case, nt=True, classes=['seq', 'n:%d' % len(ms), 'threads:%d' % case.get('threads', 1)], fails=fails[:4])
+
+
 def eval_case(case):
+    if case.get('kind') == 'seq':
+        return eval_seq(case)
     if case.get('kind') == 'asym':
         return eval_asym(case)
     role = case['role']
@@ -273,6 +312,12 @@ def run(ctx):
             if (oe, om) != (te, tm):
                 subs.append({'own_enc': oe, 'own_mac': om, 'other_enc': te, 'other_mac': tm})
         cases.append({'kind': 'asym', 'role': ('server', 'client')[i % 2], 'marker': i % 4 >= 2, 'subs': subs})
+    # sequences: 2-4 server shapes in one run, an exposed one in front of protected / unaffected ones and the other way round
+    srv = [instantiate(sx, rot0 + i, neigh=i % 5) for i, sx in enumerate(sh) if sx[0] == 'server' and (sx[2] or sx[3] or sx[4])]
+    for i in range(60 if ctx.quick else 900):
+        k = 2 + i % 3
+        ms = [srv[(i * 37 + j * 101 + ctx.seed) % len(srv)] for j in range(k)]
+        cases.append({'kind': 'seq', 'members': [{'kex': m['kex'], 'enc': m['enc'], 'mac': m['mac']} for m in ms], 'threads': 1 + i % 2})
     # every CBC cipher and every ETM MAC of the table at least once in an exposed and in an advisory configuration
     for i, c in enumerate(C['cbc']):
         e = C['etm'][i % len(C['etm'])]
@@ -283,7 +328,7 @@ def run(ctx):
     BANNERS = ['SSH-2.0-dropbear_2022.83', 'SSH-2.0-libssh_0.10.4', 'SSH-2.0-PuTTY_Release_0.78', 'SSH-2.0-OpenSSH_7.4', 'SSH-2.0-x', 'SSH-2.0-OpenSSH_for_Windows_8.1', 'SSH-1.99-Cisco-1.25', 'SSH-2.0-dropbear_2019.78']
     extra = []
     for i, c in enumerate(cases):
-        if c.get('kind') != 'asym' and c.get('context', 'plain') == 'plain' and i % (4 if ctx.quick else 1) == ctx.seed % (4 if ctx.quick else 1):
+        if c.get('kind') not in ('asym', 'seq') and c.get('context', 'plain') == 'plain' and i % (4 if ctx.quick else 1) == ctx.seed % (4 if ctx.quick else 1):
             extra.append(dict(c, banner=BANNERS[(i // 4) % len(BANNERS)]))
     cases += extra
     seen, uniq = set(), []
